@@ -288,7 +288,9 @@ _dispatch_unote_register_muxed(dispatch_unote_t du)
 
 	if (dmn) {
 		dispatch_unote_linkage_t dul = _dispatch_unote_get_linkage(du);
-		if (events & EPOLLOUT) {
+		// `events` may have been widened with the muxnote's armed events above:
+		// the list is chosen by what this unote itself waits for
+		if (_dispatch_unote_required_events(du) & EPOLLOUT) {
 			LIST_INSERT_HEAD(&dmn->dmn_writers_head, dul, du_link);
 		} else {
 			LIST_INSERT_HEAD(&dmn->dmn_readers_head, dul, du_link);
